@@ -16,13 +16,102 @@ from .sv import OutOfSubset
 _G: Dict[str, Any] = {}
 
 
+PURE_CONVERTER_METHODS = ('try_convert', 'collect_errors', 'into_data', 'convert', 'construct', 'try_convert_struct', 'try_convert_tuple',
+                          'collect_errors_struct', 'collect_errors_tuple', 'expected')
+
+
+def augment(side: Sidecar, idx: RepoIndex):
+    """A conversion must not modify the converter it runs on: converters are memoised and shared, so state kept in one makes a
+    result depend on earlier conversions (C10). The frame obligations of converter methods therefore also carry C10."""
+    for k, con in side.contracts.items():
+        fi = idx.funcs.get(k)
+        if fi is not None and fi.cls and idx.is_subclass(fi.cls, 'Converter') and fi.node.name in PURE_CONVERTER_METHODS \
+                and con.frame and 'C10' not in con.frame:
+            con.frame = list(con.frame) + ['C10']
+    return side
+
+
 def _init(repo, cdir, lattice):
     _G['idx'] = RepoIndex(repo)
-    _G['side'] = Sidecar(cdir)
+    _G['side'] = augment(Sidecar(cdir), _G['idx'])
     _G['lat'] = lattice
+    _G['env'] = _env_digest(repo, cdir, _G['idx'], _G['side'], lattice) if os.environ.get('PVC_CACHE') else ''
+
+
+def _sha(*parts) -> str:
+    import hashlib
+    h = hashlib.sha256()
+    for p_ in parts:
+        h.update(str(p_).encode())
+        h.update(b'\0')
+    return h.hexdigest()
+
+
+def _env_digest(repo, cdir, idx: RepoIndex, side: Sidecar, lattice) -> str:
+    """Everything a function's verification conditions can depend on besides its own text: the engine, the sidecar files, the class
+    lattice, and the repository source with the bodies of the (non-nested) functions under contract blanked out - a caller sees a
+    function under contract only through that contract, so a change inside one leaves every other function's conditions as they were."""
+    here = os.path.dirname(os.path.abspath(__file__))
+    parts = []
+    for fn in sorted(os.listdir(here)):
+        if fn.endswith('.py'):
+            parts.append(open(os.path.join(here, fn)).read())
+    for fn in sorted(os.listdir(cdir)):
+        if fn.endswith('.py'):
+            parts.append(open(os.path.join(cdir, fn)).read())
+    parts.append(json.dumps(lattice, sort_keys=True, default=str))
+    keys = set(side.contracts)
+    for mod in sorted(idx.sources):
+        lines = idx.sources[mod].split('\n')
+        for fi in idx.funcs.values():
+            if fi.module == mod and fi.key in keys and '<locals>' not in fi.qualname:
+                for ln in range(fi.lineno, fi.end_lineno):        # keep the def line (signature), blank the body
+                    if ln < len(lines):
+                        lines[ln] = ''
+        parts.append(mod + '\n' + '\n'.join(lines))
+    return _sha(*parts)
+
+
+def _own_text(idx: RepoIndex, key: str) -> str:
+    fi = idx.funcs.get(key)
+    if fi is None:
+        return ''
+    out = [fi.src]
+    par = fi.parent
+    while par:                                   # closures verified with preamble=True run their enclosing function
+        pf = idx.funcs.get(f'{fi.module}:{par}')
+        if pf is None:
+            break
+        out.append(pf.src)
+        par = pf.parent
+    return '\n'.join(out)
 
 
 def _work(args):
+    key, timeout_ms, second_ms, cross, sl, nsl = args
+    cdir_ = os.environ.get('PVC_CACHE')
+    cpath = None
+    if cdir_:
+        cpath = os.path.join(cdir_, _sha(_G['env'], key, _own_text(_G['idx'], key), timeout_ms, second_ms, cross, sl, nsl) + '.json')
+        if os.path.exists(cpath):
+            try:
+                return json.load(open(cpath))
+            except Exception:
+                pass
+    res = _work_uncached(args)
+    if cpath and res.get('status') in ('ok', 'out_of_subset') and all(o['verdict'] in ('discharged', 'refuted') for o in res['obligations']):
+        # only load-independent outcomes are cached (a timeout is not a property of the code)
+        try:
+            os.makedirs(cdir_, exist_ok=True)
+            tmp = cpath + f'.{os.getpid()}.tmp'
+            json.dump(res, open(tmp, 'w'), default=str)
+            os.replace(tmp, cpath)
+        except Exception:
+            pass
+    return res
+
+
+def _work_uncached(args):
     key, timeout_ms, second_ms, cross, sl, nsl = args
     import z3
     side: Sidecar = _G['side']
@@ -78,7 +167,7 @@ def _work(args):
 def run(repo: str, cdir: str, keys: Optional[List[str]] = None, props: Optional[List[str]] = None,
         timeout_ms: int = 10000, procs: int = 16, second_ms: int = 20000, cross: bool = False) -> List[Dict[str, Any]]:
     lattice = load_lattice(repo)
-    side = Sidecar(cdir)
+    side = augment(Sidecar(cdir), RepoIndex(repo))
     allc = {**side.contracts, **side.lemmas}
     sel = []
     for k, con in allc.items():
